@@ -340,6 +340,9 @@ func (g *fgen) arrToSMT(a *types.Array, v string) string {
 
 // wf returns well-formedness facts for a term of type t (ranges, slice shape, refs allocated).
 func (g *fgen) wf(t string, typ types.Type, alloc string, depth int) string {
+	if typ == tMathInt {
+		return "true"
+	}
 	switch u := typ.Underlying().(type) {
 	case *types.Basic:
 		if ii, ok := intInfoOf(typ); ok {
@@ -883,6 +886,9 @@ func (g *fgen) defineUnknown(v ssa.Value, st *state) val {
 func (g *fgen) oblige(kind, label, goal string, pos token.Pos) {
 	if goal == "true" {
 		// trivially true: still count it, discharged without solver
+	}
+	if strings.HasPrefix(goal, "(forall ((") {
+		goal = g.skolemizeGoal(goal)
 	}
 	base := fmt.Sprintf("%s.%s#%s", shortPkg(g.pkgPath), g.key, kind)
 	if label != "" {
